@@ -27,7 +27,7 @@ use crate::parser::Node;
 use linked_hash_map::LinkedHashMap;
 use serde::{Deserialize, Serialize};
 use serde_with::serde_as;
-use std::collections::HashMap;
+use std::collections::{HashMap, HashSet};
 
 /// Serde JSON structure for a policy set in the EST format
 #[derive(Debug, Clone, Serialize, Deserialize, Default)]
@@ -123,6 +123,9 @@ impl TryFrom<PolicySet> for ast::PolicySet {
 
     fn try_from(value: PolicySet) -> Result<Self, Self::Error> {
         let mut ast_pset = ast::PolicySet::default();
+        // a link may only name an entry of `templates` (the AST-level `link` below
+        // would also accept the id of a static policy, which has no slots)
+        let template_ids: HashSet<PolicyID> = value.templates.keys().cloned().collect();
 
         for (id, policy) in value.static_policies {
             let ast = policy.try_into_ast_policy(Some(id))?;
@@ -140,6 +143,9 @@ impl TryFrom<PolicySet> for ast::PolicySet {
             values,
         } in value.template_links
         {
+            if !template_ids.contains(&template_id) {
+                return Err(ast::LinkingError::NoSuchTemplate { id: template_id }.into());
+            }
             ast_pset.link(template_id, new_id, values)?;
         }
 
